@@ -1,17 +1,52 @@
 """Per-property configuration of ./check: which Props file states the theorems, which
 correspondence suites exercise the model files those theorems depend on."""
+import os
 
 ALLOWED_AXIOMS = set()  # Print Assumptions must report "Closed under the global context"
 
-# histories per suite: quick = every change; thorough = sharded over 16 processes (+ release profile)
+# histories per suite: quick = every change (split over `shards` processes); thorough = 16 shards (+ release profile)
 SUITES = {
-    "r-codec": {"quick": 300, "thorough": 20000},
-    "r-pair": {"quick": 400, "thorough": 20000},
-    "r-hostile": {"quick": 400, "thorough": 20000},
-    "r-server": {"quick": 300, "thorough": 20000},
+    "r-codec": {"quick": 300, "thorough": 20000, "shards": 1},
+    "r-pair": {"quick": 400, "thorough": 20000, "shards": 2},
+    "r-hostile": {"quick": 400, "thorough": 20000, "shards": 2},
+    "r-server": {"quick": 300, "thorough": 20000, "shards": 2},
+    "n-codec": {"quick": 120, "thorough": 6000, "shards": 4},
+    "n-replay": {"quick": 300, "thorough": 20000, "shards": 1},
+    "n-world": {"quick": 160, "thorough": 6000, "shards": 8},
 }
 
-PROPS = {
-    "C12": {"props": "Props/C12.v", "suites": ["r-server", "r-pair", "r-hostile"],
-            "assumptions": ["API misuse that the crate documents as panicking (unknown channel id) is out of scope"]},
+R_ALL = ["r-pair", "r-hostile", "r-server"]
+N_ALL = ["n-codec", "n-replay", "n-world"]
+MISUSE = "API misuse that the crate documents as panicking (unknown channel id, duplicate channel ids, max_clients > 1024) is out of scope"
+COUNTERS = "packet sequence numbers and message ids stay below 2^62 (the varint limit; more than 10^11 years of traffic)"
+HONEST = "the peer is honest and only packets the peer emitted are delivered (any loss, duplication, delay, reordering); hostile input is C06/C07"
+NOFORGE = "unforgeability of ChaCha20-Poly1305 / XChaCha20-Poly1305 is not provable: what is proved is that opening succeeds only on the exact output of a seal under the same key, nonce and associated data (aead_open_iff); that a party without the key cannot produce such bytes is the assumption"
+
+_ALL = {
+    "C01": {"suites": ["r-pair", "r-server"], "assumptions": [HONEST, MISUSE, COUNTERS]},
+    "C02": {"suites": ["r-pair", "r-server"], "assumptions": [HONEST, MISUSE, COUNTERS]},
+    "C03": {"suites": ["r-pair", "r-server", "r-codec"], "assumptions": [HONEST, MISUSE, COUNTERS]},
+    "C04": {"suites": N_ALL, "assumptions": [NOFORGE, "sequence numbers below 2^64 - 256"]},
+    "C05": {"suites": ["n-world", "n-codec"], "assumptions": [NOFORGE]},
+    "C06": {"suites": ["r-hostile", "r-server", "r-codec"], "assumptions": [MISUSE, COUNTERS]},
+    "C07": {"suites": N_ALL, "assumptions": [NOFORGE]},
+    "C08": {"suites": ["r-pair", "r-hostile", "r-server"], "assumptions": [HONEST, COUNTERS]},
+    "C09": {"suites": R_ALL, "assumptions": [HONEST, MISUSE]},
+    "C10": {"suites": ["n-world"], "assumptions": ["max_clients is not lowered at run time for the bound"]},
+    "C11": {"suites": ["r-server", "r-hostile"], "assumptions": [MISUSE]},
+    "C12": {"suites": ["r-server", "r-pair", "r-hostile"], "assumptions": [MISUSE]},
+    "C13": {"suites": ["r-codec", "r-pair", "r-server", "n-codec", "n-world"], "assumptions": [COUNTERS]},
+    "C14": {"suites": ["r-pair", "r-server"], "assumptions": [MISUSE]},
+    "C15": {"suites": ["r-pair", "r-server"], "assumptions": [HONEST]},
+    "C16": {"suites": ["r-codec", "r-pair", "n-codec"], "assumptions": [COUNTERS]},
+    "C17": {"suites": ["n-codec", "n-world"], "assumptions": [NOFORGE, "distinct tokens carry distinct keys (random 256-bit values)", "one connection attempt per token"]},
+    "C18": {"suites": ["n-world"], "assumptions": ["the network eventually delivers: stated as explicit good rounds"]},
+    "C19": {"suites": ["n-world", "n-codec"], "assumptions": []},
+    "C20": {"suites": ["t-udp"], "assumptions": ["OS socket behaviour is observed, not proved"]},
 }
+
+_coq = os.path.join(os.path.dirname(os.path.dirname(os.path.abspath(__file__))), "coq", "Props")
+PROPS = {}
+for _pid, _cfg in _ALL.items():
+    if os.path.exists(os.path.join(_coq, _pid + ".v")) and all(s in SUITES for s in _cfg["suites"]):
+        PROPS[_pid] = dict(_cfg, props="Props/%s.v" % _pid)
